@@ -615,7 +615,14 @@ func (w *Worker) invokeSynthetic(fr *frame, iv IfaceV, m *types.Func, args []Val
 	}
 	if types.Identical(iv.T, nopType) {
 		sig := m.Type().(*types.Signature)
-		return w.zeroResults(sig)
+		r := sig.Results()
+		switch r.Len() {
+		case 0:
+			return nil
+		case 1:
+			return w.nopValue(r.At(0).Type())
+		}
+		return w.nopValue(r)
 	}
 	w.unsupported("method %s on synthetic value %s", m.Name(), iv.T)
 	return nil
@@ -641,6 +648,3 @@ func (w *Worker) callIntrClosure(fr *frame, cl *ClosureV, args []Value, cc *ssa.
 
 var intrClosures = map[string]func(w *Worker, fr *frame, cl *ClosureV, args []Value) Value{}
 
-func (w *Worker) tryGenericExternal(fr *frame, fn *ssa.Function, args []Value) (Value, bool) {
-	return nil, false
-}
